@@ -231,10 +231,36 @@ def _val_is(r, want):
     return eq(p.t, want)
 
 
+def fixed_offset_read(io):
+    """GetISODateTimeFor in a fixed-offset zone: the wall-clock reading is the instant shifted by the zone's minutes, for
+    every instant of 2000-06-14..16 (date arithmetic over the whole range is C05's from_epoch_nanos) and every +-hh:mm"""
+    minutes = io.int("offset_minutes", "i16", -1439, 1439)
+    e = io.int("e", "i128", (BASE_DAY - 1) * DAY, (BASE_DAY + 2) * DAY - 1)
+    if io.kind != "sym":
+        r = io.call(None, [], native=("fixed_zone_instant_to_wall", ("result", ("agg", [("agg", ["i32", "u8", "u8"]), ("agg", ["u8", "u8", "u8", "u16", "u16", "u16"])])),
+                                      [minutes, e]))
+    else:
+        tz = symex.Enum(1, {0: [symex.Opaque("name")], 1: [symex.Agg([minutes])]}, "TimeZone")
+        inst = symex.Agg([symex.Agg([e])])
+        r = io.call(("TimeZone", None, "get_iso_datetime_for"), [io.ref(tz), io.ref(inst), io.ref(symex.Opaque("provider"))], native=None)
+    want = add(e.t, mul(60 * NS, minutes.t))
+    io.witness("C13.fixed.reach")
+    io.witness("C13.fixed.negative_offset_crossing_midnight", and_(lt(minutes.t, 0), lt(emod(e.t, DAY), mul(60 * NS, sub(0, minutes.t)))))
+    io.prove("C13.fixed.never_fails", eq(r.d, 0))
+    if 0 in r.v:
+        date, tm = r.v[0][0].f
+        Y, M, D = (f.t for f in date.f)
+        io.prove("C13.fixed.time_of_day_is_instant_plus_offset", eq(R.time_ns(*[f.t for f in tm.f]), emod(want, DAY)), hyp=eq(r.d, 0))
+        io.prove("C13.fixed.date_is_instant_plus_offset",
+                 and_(eq(Y, 2000), eq(M, 6), eq(add(BASE_DAY, sub(D, 15)), ediv(want, DAY))), hyp=eq(r.d, 0))
+    io.obligations("C13.fixed")
+
+
 def jobs(tier, seed):
     return [
         ("wall_to_instant[|offset|<24h]", wall_to_instant, {"max_off": 24 * 3600 - 1}, {"timeout": 600}),
         ("instant_to_wall[|offset|<24h]", instant_to_wall, {"max_off": 24 * 3600 - 1}, {"timeout": 600}),
+        ("fixed_offset_read", fixed_offset_read, {}, {"timeout": 300}),
         ("offset_record[zoned]", offset_record, {"which": "zoned"}, {"timeout": 120}),
         ("offset_record[relative_to]", offset_record, {"which": "relative_to"}, {"timeout": 120}),
         ("interpret_offset[|offset|<24h]", interpret_offset, {"max_off": 24 * 3600 - 1}, {"timeout": 900, "unroll": 3, "generics": {"T": "i128"}}),
